@@ -33,7 +33,7 @@ def rand_format(rng):
         ty = rng.choice(["str", "int", "bool"])
         dflt = {"t": "N"}
         if mode == "opt":
-            dflt = {"t": "s", "v": list({"str": "d", "int": "5", "bool": "true"}[ty])}
+            dflt = {"t": "s", "v": list(rng.choice({"str": ["d", ""], "int": ["5", "0"], "bool": ["true", "0", ""]}[ty]))}
         opts.append({"long": list(lg), "short": shorts[k] if rng.random() < 0.7 else "", "mode": mode, "type": ty,
                      "nullable": rng.random() < 0.3, "dflt": dflt})
     narg = rng.randint(0, 4)
